@@ -437,3 +437,122 @@ def scalar_items(rng, fmt, rich, exclude=()):
             f = ["list", safe_values(rng, fmt)]
         out.append([k, f])
     return out
+
+
+# --- attribute keys spelled like the fixed columns / other members of a Feature ---------------------------------------
+MEMBER_NAMES = ["seqid", "source", "featuretype", "start", "end", "score", "strand", "frame", "attributes", "extra", "id",
+                "bin", "dialect", "chrom", "stop", "file_order", "keep_order", "sort_attribute_values"]
+COLUMN_NAMES = MEMBER_NAMES[:8]
+# what such attributes look like in files ("score=0.93", "source=HAVANA", "end=7", "strand=-", "frame=2")
+MEMBER_VALUES = ["0.93", "HAVANA", "7", "-", "2", "+", ".", "0", "chrX", "exon", "100", "1e-5", "refseq", "x"]
+
+
+def member_value(rng):
+    return rng.choice(MEMBER_VALUES) if rng.random() < 0.6 else simple_value(rng)
+
+
+def member_key(rng, used=()):
+    """A key spelled like a Feature member, the eight column names twice as likely as the others."""
+    pool = [k for k in COLUMN_NAMES + MEMBER_NAMES if k not in used]
+    return rng.choice(pool) if pool else None
+
+
+def member_base(rng, fmt):
+    """Base attributes of a line that carries 1-4 attributes named like Feature members (score=0.93;source=HAVANA)."""
+    if fmt == "gtf":
+        base = [["gene_id", [simple_value(rng)]], ["transcript_id", [simple_value(rng)]]]
+    else:
+        base = [["ID", [simple_value(rng)]]]
+    used = []
+    for _ in range(rng.randrange(1, 5)):
+        k = member_key(rng, used)
+        used.append(k)
+        if fmt == "gtf":
+            vals = [member_value(rng)]
+        else:
+            vals = [member_value(rng) for _ in range(rng.choice([1, 1, 1, 2, 3]))]
+        base.append([k, vals])
+    if rng.random() < 0.4:
+        base.insert(rng.randrange(1, len(base) + 1), ["Note", [simple_value(rng)]])
+    return base
+
+
+def member_ops(rng, base_keys, ntuple=False):
+    """1-6 operations whose keys are mostly spelled like Feature members; half of them go through the Feature
+    (feature[key] = value), the others through every route of the attributes mapping."""
+    keys = list(base_keys)
+    out = []
+    for _ in range(rng.randrange(1, 7)):
+        r = rng.random()
+        how = "feature_setitem" if r < 0.5 else ("delete" if r > 0.95 else rng.choice(HOWS[1:-1]))
+        items = []
+        m = 1 if how in ("feature_setitem", "attr_setitem", "setdefault", "delete") else rng.randrange(1, 4)
+        for _ in range(m):
+            r = rng.random()
+            if r < 0.3 and keys:
+                k = rng.choice(keys)
+            elif r < 0.9:
+                k = rng.choice(COLUMN_NAMES + MEMBER_NAMES)
+            else:
+                k = ukey(rng, keys)
+            if k not in keys:
+                keys.append(k)
+            if any(k == it[0] for it in items):
+                continue
+            f = form(rng, ntuple=ntuple)
+            if rng.random() < 0.5:
+                # column-like content: f['source'] = 'refseq', f['end'] = '7'
+                v = member_value(rng)
+                f = [f[0], v if f[0] in ("scalar", "substr") else [v] + list(f[1][:1])]
+            items.append([k, f])
+        out.append({"how": how, "items": items, "switch": rng.random() < 0.7})
+    return out
+
+
+# --- keep_order features whose own key order differs from the order of their dialect ----------------------------------
+KO_KEYS = ["ID", "Name", "biotype", "Alias", "Note", "gene_id", "transcript_id", "zeta", "Dbxref", "description", "score",
+           "tag", "étiquette"]
+
+
+def korder_case(rng):
+    """A first line (the one that defines the dialect's 'order') and 1-3 later lines listing keys of it in ANOTHER order
+    (+ keys of their own); ids under key ID.  route line: later lines parsed with the first line's dialect and
+    keep_order=True; ctor: Feature(attributes=<mapping in the given order>, keep_order=True) under the default dialect
+    (order ID, Name, gene_id, transcript_id) or the first line's; db: the lines imported with keep_order=True, features
+    fetched through FeatureDB(keep_order=True), edited and written back."""
+    route = rng.choice(["line", "line", "ctor", "db", "db", "db"])
+    n = rng.randrange(2, 6)
+    default = route == "ctor" and rng.random() < 0.5
+    if default:
+        first = ["ID", "Name", "gene_id", "transcript_id"]      # the order of the default dialect
+    else:
+        first = ["ID"] + rng.sample([k for k in KO_KEYS if k != "ID"], n)
+        rng.shuffle(first)
+
+    def vals():
+        return [safe_value(rng) for _ in range(rng.choice([1, 1, 2, 3]))]
+
+    lines = [[[k, ["g0"] if k == "ID" else vals()] for k in first]]
+    for i in range(1, rng.randrange(2, 5)):
+        keys = rng.sample(first, rng.randrange(2, len(first) + 1))
+        if "ID" not in keys:
+            keys.append("ID")
+        for _ in range(20):
+            rng.shuffle(keys)
+            if keys != [k for k in first if k in keys]:
+                break
+        own = [k for k in KO_KEYS if k not in first]
+        for k in rng.sample(own, rng.randrange(0, min(3, len(own) + 1))):
+            keys.insert(rng.randrange(0, len(keys) + 1), k)
+        lines.append([[k, ["g%d" % i] if k == "ID" else vals()] for k in keys])
+    case = {"kind": "korder", "route": route, "lines": lines, "flip": rng.random() < 0.4}
+    if route == "ctor":
+        case["attrs_as"] = rng.choice(["dict", "attributes", "json"])
+        case["dialect"] = "default" if default else "first"
+    if route == "db":
+        case["file"] = rng.random() < 0.4
+        case["writes"] = [{"how": rng.choice(["child_func", "child_func", "parent_func", "update_replace"]),
+                           "pick": rng.randrange(1, len(lines)), "key": rng.choice(["Parent", "Parent", "note2", "Name", "Alias"]),
+                           "scalar": rng.random() < 0.6}
+                          for _ in range(rng.randrange(1, 4))]
+    return case
